@@ -126,6 +126,22 @@ func runC13(c *rt.Ctx) {
 			}
 		}
 	}
+	// the pool changes shape while connections are lost: its monitor adds a pooled connection
+	// (evaluation is an event) before or after a cut; and a cold start (the pool's first connection
+	// is refused once while the callers arrive) followed by a cut of that first connection
+	for _, bs := range []int{1, 2} {
+		for i, a := range c0 {
+			if i%4 != 2 && !c.Thorough() {
+				continue
+			}
+			item++
+			if c.Mine(item) && !c.Expired() {
+				b := c1[(i*7+3)%len(c1)]
+				run(PoolScenario{Harness: "C13", BatchSize: bs, PoolSize: 1, Prep: prep01, Callers: []wire.Op{a, b}, MaxCuts: 1, Monitor: 1, Late: true})
+				run(PoolScenario{Harness: "C13", BatchSize: bs, PoolSize: 1, Prep: prep01, Callers: []wire.Op{a, b}, MaxCuts: 1, ColdStart: 1, Late: true})
+			}
+		}
+	}
 	// a long outage: the backend refuses enough dials in a row for the reconnect back-off to reach
 	// its cap (and stay there for a few more attempts) before it accepts again
 	for _, ps := range []int{1, 2} {
